@@ -49,7 +49,8 @@ func Spec_remapWeights(weights *model.Weights) *model.Weights {
 
 func Spec_validateAllCriteriaAreGain(criteria *model.Criteria) {
 	for _, c := range *criteria {
-		if c.Type != model.Gain {
+		// C20: a criterion without an explicit type is a gain criterion
+		if !c.Spec_IsGain() {
 			panic(fmt.Errorf("%s: only Gain criteria acceptable for Choquet integral", c.Id))
 		}
 	}
